@@ -319,6 +319,10 @@ pub fn verify_readback(bytes: &[u8], scene: &Scene, run: &RunResult, ctx: &mut C
                 _ => "override-partial",
             };
             v.push(viol(c14, format!("limits/intensity/{}", class), format!("pc{} intensity limits expected {} got {}", i, ilimits_str(&eil), ilimits_str(&got.intensity_limits))));
+            if ctx.primary == "C04" && m.intensity_limits.is_some() {
+                // limits the caller set (or removed) are metadata like any other field
+                v.push(viol("C04", format!("field/pc.intensity_limits/{}", class), format!("pc{} intensity limits set by the caller: expected {} got {}", i, ilimits_str(&eil), ilimits_str(&got.intensity_limits))));
+            }
         }
         let ecl = expected_color_limits(&exp.prototype, &m.color_limits);
         if climits_str(&ecl) != climits_str(&got.color_limits) {
@@ -328,6 +332,9 @@ pub fn verify_readback(bytes: &[u8], scene: &Scene, run: &RunResult, ctx: &mut C
                 _ => "override",
             };
             v.push(viol(c14, format!("limits/color/{}", class), format!("pc{} color limits expected {} got {}", i, climits_str(&ecl), climits_str(&got.color_limits))));
+            if ctx.primary == "C04" && m.color_limits.is_some() {
+                v.push(viol("C04", format!("field/pc.color_limits/{}", class), format!("pc{} color limits set by the caller: expected {} got {}", i, climits_str(&ecl), climits_str(&got.color_limits))));
+            }
         }
         // C14: bounds
         check_bounds(i, exp, got, c14, &mut v, ctx);
@@ -399,6 +406,15 @@ pub fn verify_readback(bytes: &[u8], scene: &Scene, run: &RunResult, ctx: &mut C
         ctx.cover.hit_num("bloblen_mod1020", (data.len() % 1020) as u64);
         ctx.cover.hit_num("blobpos_mod1020", crate::crc::phys_to_log(b.offset) % 1020);
         check_blob(&format!("blob{}", bi), b, data, &mut rd, c06, &mut v);
+        if !data.is_empty() && ctx.primary == "C06" {
+            // rooms: nothing, all but the last byte, a little, somewhere in the middle
+            let rooms = [0usize, data.len() - 1, 100.min(data.len() - 1), data.len() / 2, (data.len() * 3 / 4).min(data.len() - 1)];
+            let room = rooms[(bi + data.len()) % rooms.len()];
+            ctx.cover.hit(&format!("failing-sink:{}", ["room-0", "all-but-one", "small", "half", "three-quarters"][(bi + data.len()) % rooms.len()]));
+            check_blob_failing_sink(&format!("blob{}", bi), b, data, room, &mut rd, c06, &mut v);
+            // and the reader is as good as before
+            check_blob(&format!("blob{} (after a failing writer)", bi), b, data, &mut rd, c06, &mut v);
+        }
     }
     v
 }
@@ -412,6 +428,42 @@ fn trunc(s: &str) -> String {
         format!("{}…(len {})", &s[..e], s.len())
     } else {
         s.to_string()
+    }
+}
+
+/// sink that accepts `room` bytes and then fails
+pub struct FailingSink {
+    pub room: usize,
+    pub got: Vec<u8>,
+    pub failed: bool,
+}
+impl std::io::Write for FailingSink {
+    fn write(&mut self, b: &[u8]) -> std::io::Result<usize> {
+        if self.got.len() >= self.room {
+            self.failed = true;
+            return Err(std::io::Error::new(std::io::ErrorKind::Other, "sink is full"));
+        }
+        let n = b.len().min(self.room - self.got.len());
+        self.got.extend_from_slice(&b[..n]);
+        Ok(n)
+    }
+    fn flush(&mut self) -> std::io::Result<()> {
+        Ok(())
+    }
+}
+
+/// Ok(n) from blob() is a statement about what the caller's writer received: with a writer that stops
+/// accepting bytes before the end, Ok is only right if all n bytes did arrive.
+pub fn check_blob_failing_sink<T: std::io::Read + std::io::Seek>(label: &str, b: &Blob, data: &[u8], room: usize, rd: &mut E57Reader<T>, prop: &'static str, v: &mut Vec<Viol>) {
+    let mut sink = FailingSink { room, got: Vec::new(), failed: false };
+    match guarded(|| rd.blob(b, &mut sink)) {
+        Err(p) => v.push(viol("C08", format!("panic/blob/{}", panic_sig(&p)), p)),
+        Ok(Err(_)) => {}
+        Ok(Ok(n)) => {
+            if sink.got.len() as u64 != n || sink.got != data {
+                v.push(viol(prop, "blob/ok-but-writer-incomplete".into(), format!("{} ({} bytes): blob() returned Ok({}) but the caller's writer, which accepts only {} bytes, received {}", label, data.len(), n, room, sink.got.len())));
+            }
+        }
     }
 }
 
